@@ -638,6 +638,12 @@ def assocSet (items : List (Val × Val)) (k v : Val) : List (Val × Val) :=
 def assocErase (items : List (Val × Val)) (k : Val) : List (Val × Val) :=
   items.filter (fun p => p.1 ≠ k)
 
+/-- `Table_Get`: `cast` of the key, `KeyError` on a slot-less table, hash + probe, `KeyError` when the probe ends.
+    The address shortcut in front of the `cast` (since fix bc940bb: taken only when `key` *is* the key object of an occupied slot,
+    `key is Table_Key(t, i) and Table_Key_Hash(t, i) isnt 0`; every other address falls through to the lines modelled here) returns
+    the value stored beside that key — what the lookup of that key returns — writes nothing and cannot raise; arguments of the model
+    are values, never addresses inside the slot array, so it has no separate branch here (the pointer-level model is C02's:
+    Cello/Table.lean).  Its two guards are pinned in `modelledProfile` (Lemmas/FailProfile.lean). -/
 def Tab.get (t : Tab) (k : Val) : Tab × Res :=
   match castTo t.kty k with
   | .ok k' =>
@@ -647,6 +653,37 @@ def Tab.get (t : Tab) (k : Val) : Tab × Res :=
       | none => (t, .raised .KeyError)
   | .raised e => (t, .raised e)
   | .ub => (t, .ub)
+
+/-- an argument of `Table_Get` that is an *address inside the slot array of the table it is passed to*: the key object / the value
+    object of the occupied slot that holds key `k` (`Table_Key(t, i)` / `Table_Val(t, i)`) — what a caller holds after iterating
+    over the table, or after an earlier `get` -/
+inductive SlotArg where
+  | key (k : Val)
+  | val (k : Val)
+deriving DecidableEq, Repr, Inhabited
+
+/-- the object found at such an address (`none`: no occupied slot holds `k` — not an address of this kind) -/
+def Tab.slotObj (t : Tab) : SlotArg → Option Val
+  | .key k => (t.items.lookup k).map (fun _ => k)
+  | .val k => t.items.lookup k
+
+/-- `Table_Get` on an address inside the slot array, as repaired by fix bc940bb:
+    `if (key >= t->data and (char*)key < (char*)t->data + t->nslots * Table_Step(self)) {`
+    `  size_t i = …; if (key is Table_Key(t, i) and Table_Key_Hash(t, i) isnt 0) { return Table_Val(self, i); } }`
+    — the shortcut is taken for the key object of an occupied slot only (the value beside it, before any check); every other
+    address — here: the value object of a slot — falls through to `cast` / hash / probe like any other argument (`Tab.get` on the
+    object found there).  (Before the fix every address inside the array returned the value of "its" slot: `Tab.getSlotOld`,
+    Lemmas/FailOld.lean.) -/
+def Tab.getSlot (t : Tab) (a : SlotArg) : Tab × Res :=
+  match a with
+  | .key k =>
+    match t.items.lookup k with
+    | some v => (t, .ok (.val v))
+    | none => (t, .ub)
+  | .val k =>
+    match t.items.lookup k with
+    | some v => t.get v
+    | none => (t, .ub)
 
 def Tab.mem (t : Tab) (k : Val) : Tab × Res :=
   match castTo t.kty k with
